@@ -110,8 +110,8 @@ Proof.
     rewrite (batch_eval_delcur_missing ByValue (cs_of (st c)) i Hmiss).
     cbn [batch_proj_ok] in Hp. apply andb_true_iff in Hp as [Hc _].
     destruct (snd (fst (a_batch A s [item_bop i]))) eqn:Ecl; try discriminate.
-    exists c. split; [left; reflexivity|]. cbn [fst snd]. rewrite Hrel.
-    split; [repeat split; assumption|]. split; [reflexivity|right; reflexivity].
+    exists c. split; [left; reflexivity|]. cbn [fst snd].
+    split; [split; [exact Hrel|repeat split; assumption]|]. split; [reflexivity|right; reflexivity].
   - rewrite (batch_eval_delcur_fresh m c i Hfr) in *.
     assert (Hfr' : fresh ByValue (cs_of (st c)) i) by (split; [exact (proj1 Hfr)|exact I]).
     rewrite (batch_eval_delcur_fresh ByValue (cs_of (st c)) i Hfr').
@@ -385,7 +385,7 @@ Definition hist_ok (q : req) : Prop :=
 Lemma rel_q_step_all st rt q : RelB S st rt -> hist_ok q ->
   exists st' rt' p ev, q_step A prefix st q = (st', p, ev) /\ q_step radapter prefix rt q = (rt', p, ev) /\ RelB S st' rt'.
 Proof.
-  intros HB Hq. destruct q as [k v|k v rev|k rev|k rev|a b rev limit|rev|a b|a b rev].
+  intros HB Hq. destruct q as [k v|k v rev|k rev|k rev|a b rev limit|rev|a b|a b rev|].
   - apply (rel_q_step VP HVP S Hplain prefix st rt (QCreate k v) HB Hq).
   - apply (rel_q_step VP HVP S Hplain prefix st rt (QUpdate k v rev) HB Hq).
   - apply (rel_q_step VP HVP S Hplain prefix st rt (QDelete k rev) HB I).
@@ -395,6 +395,7 @@ Proof.
     rewrite E1, E2. do 4 eexists. split; [reflexivity|]. split; [reflexivity|exact HB'].
   - cbn [q_step]. rewrite (rel_q_count st rt a b HB). do 4 eexists. split; [reflexivity|]. split; [reflexivity|exact HB].
   - cbn [q_step]. rewrite (rel_q_stream st rt a b rev HB). do 4 eexists. split; [reflexivity|]. split; [reflexivity|exact HB].
+  - cbn [q_step]. do 4 eexists. split; [reflexivity|]. split; [reflexivity|]. destruct HB as [HR Hrev]. split; assumption.
 Qed.
 
 Lemma rel_q_run_all qs : forall st rt, RelB S st rt -> Forall hist_ok qs ->
@@ -421,7 +422,7 @@ Qed.
 End Compact.
 
 (* any two adapters that refine the contract — whichever reading of DelCurrent each implements — give the same
-   transcript and leave the same raw contents, on every sequential history whose written values both admit *)
+   transcript and leave the same raw contents, on every sequential history whose written values both accept *)
 Theorem engine_independent (VP : bytes -> Prop) (HVP : forall v, v <> [] -> VP v) A mA (SA : sim A mA) B mB (SB : sim B mB) prefix init qs :
   plain_ok VP SA -> stamped_if_version SA -> plain_ok VP SB -> stamped_if_version SB -> Forall (hist_ok VP) qs ->
   run_history A prefix init qs = run_history B prefix init qs.
